@@ -55,17 +55,6 @@ def toSpec (enc : String → Bytes) : Ex' → EArg
   | .ex2 op l r => .x op [toSpec enc l, toSpec enc r]
   | .error => .bad
 
-/-- column names an expression refers to -/
-def refs : Ex' → List String
-  | .col n => [n]
-  | .const _ => []
-  | .unary _ s => [s]
-  | .colConst _ s _ _ => [s]
-  | .colCol _ a b => [a, b]
-  | .ex1 _ e => refs e
-  | .ex2 _ l r => refs l ++ refs r
-  | .error => []
-
 /-- no constant of the expression is an enum value of the mirror (the decoder builds none) -/
 def noEnumConst : Ex' → Bool
   | .const (.enum _) => false
@@ -82,12 +71,21 @@ def isCol : Ex' → Bool
 def IsTemp (t : String) : Prop := ∃ pre, (pre = "const" ∨ pre = "unary" ∨ pre = "colcol") ∧ ∃ k, t = tempName pre k
 
 /-- The expression does not refer to a column that is not in the frame under a name `execute` may give to a temporary.
-(Such a reference can be satisfied by the temporary of a sibling sub-expression: see the finding in C07EndToEnd.lean.) -/
+(Such a reference could be satisfied by the temporary of a sibling sub-expression — the finding of C07EndToEnd.lean. Since the
+repair `Eval` rejects every reference that is not a column of the frame before it executes anything, so this holds whenever
+`execute'` runs under `eval'`: `noCapture_of_present`.) -/
 def NoCapture (f : Frame) (e : Ex') : Prop := ∀ n, n ∈ refs e → f.byName n = none → ¬ IsTemp n
 
 /-- `F` is what the mirror frame `f` shows under the names the expression refers to -/
 def Agree (enc : String → Bytes) (f : Frame) (F : LFrame) (e : Ex') : Prop :=
   F.n = f.index.length ∧ ∀ n, n ∈ refs e → F.find? (enc n) = (absLookup f.abs n).map (entryCol enc)
+
+theorem noCapture_of_present {f : Frame} {e : Ex'} (h : ∀ n, n ∈ refs e → (f.byName n).isSome = true) :
+    NoCapture f e := by
+  intro n hn hb
+  have := h n hn
+  rw [hb] at this
+  cases this
 
 theorem tyC_inj {a b : Ty} (h : tyC a = tyC b) : a = b := by
   cases a <;> cases b <;> simp [tyC] at h <;> rfl
@@ -180,6 +178,45 @@ theorem den_x2 (s : String) (F : LFrame) (op : String) (a b : EArg) :
 
 theorem d2_none_right (s : String) (n : Nat) (op : String) (o : Option QF.Val) : d2 s n op o none = none := by
   cases o <;> rfl
+
+theorem dcol_none {F : LFrame} {n : Bytes} (h : F.find? n = none) : dcol F n = none := by
+  unfold dcol; rw [h]; rfl
+
+/-- a column reference that the logical frame does not have makes the spec's value an error, wherever it stands -/
+theorem den_none_of_ref (enc : String → Bytes) (s : String) (F : LFrame) (e : Ex') :
+    (∃ n, n ∈ refs e ∧ F.find? (enc n) = none) → (toSpec enc e).den s F = none := by
+  induction e with
+  | col n =>
+    rintro ⟨m, hm, h⟩
+    simp only [refs, List.mem_singleton] at hm; subst hm
+    simp only [toSpec, den_col, dcol_none h]
+  | const v => rintro ⟨m, hm, _⟩; simp [refs] at hm
+  | error => rintro ⟨m, hm, _⟩; simp [refs] at hm
+  | unary op c =>
+    rintro ⟨m, hm, h⟩
+    simp only [refs, List.mem_singleton] at hm; subst hm
+    simp only [toSpec, den_x1, den_col, dcol_none h]; rfl
+  | colConst op c v cf =>
+    rintro ⟨m, hm, h⟩
+    simp only [refs, List.mem_singleton] at hm; subst hm
+    cases cf
+    · simp only [toSpec, den_x2, den_col, dcol_none h]; rfl
+    · simp only [toSpec, den_x2, den_col, dcol_none h, d2_none_right]
+  | colCol op a b =>
+    rintro ⟨m, hm, h⟩
+    simp only [refs, List.mem_cons, List.not_mem_nil, or_false] at hm
+    rcases hm with rfl | rfl
+    · simp only [toSpec, den_x2, den_col, dcol_none h]; rfl
+    · simp only [toSpec, den_x2, den_col, dcol_none h, d2_none_right]
+  | ex1 op e ih =>
+    rintro ⟨m, hm, h⟩
+    simp only [toSpec, den_x1, ih ⟨m, hm, h⟩]; rfl
+  | ex2 op l r ihl ihr =>
+    rintro ⟨m, hm, h⟩
+    simp only [refs, List.mem_append] at hm
+    rcases hm with hm | hm
+    · simp only [toSpec, den_x2, ihl ⟨m, hm, h⟩]; rfl
+    · simp only [toSpec, den_x2, ihr ⟨m, hm, h⟩, d2_none_right]
 
 /-- the column entry of the frame as the spec's computed column -/
 theorem dcol_of_agree {enc : String → Bytes} {f : Frame} {F : LFrame} {e : Ex'} (A : Agree enc f F e)
